@@ -1161,7 +1161,40 @@ func runBehaviour(steps []bStep, auth string, maxqos int, res *Result) (result *
 					}
 				}
 			}
-			if !groupsEqual(exp, g) {
+			equal := groupsEqual(exp, g)
+			if !equal && name == a.C && (a.A == "publish" || a.A == "pubrel") {
+				// a publisher subscribed to its own topic: no property says where the acknowledgement of its packet stands
+				// among the deliveries the same packet causes on its own connection (the specification lists the
+				// acknowledgement first for PUBACK, last for PUBCOMP): both are compared as streams of their own
+				isAck := func(p bPkt) bool { return p.Ty == "PUBACK" || p.Ty == "PUBCOMP" }
+				var expA, expD [][]bPkt
+				var gotA, gotD []bPkt
+				for _, grp := range exp {
+					var ga, gd []bPkt
+					for _, p := range grp {
+						if isAck(p) {
+							ga = append(ga, p)
+						} else {
+							gd = append(gd, p)
+						}
+					}
+					if len(ga) > 0 {
+						expA = append(expA, ga)
+					}
+					if len(gd) > 0 {
+						expD = append(expD, gd)
+					}
+				}
+				for _, p := range g {
+					if isAck(p) {
+						gotA = append(gotA, p)
+					} else {
+						gotD = append(gotD, p)
+					}
+				}
+				equal = groupsEqual(expA, gotA) && groupsEqual(expD, gotD)
+			}
+			if !equal {
 				return &brokerMismatch{fmt.Sprintf("%s %s: connection %s received %s, specification %s", where, actDesc(a), name, showPkts(g), showGroups(exp)),
 					tagFor(a, exp, g, name)}
 			}
